@@ -57,7 +57,7 @@ func ruleNoArgMutation(c *core.Ctx, rule string) {
 			var seeds []ssa.Value
 			for _, p := range sf.Params {
 				for _, want := range e.params {
-					if p.Name() == want {
+					if core.VarName(p.Object()) == want {
 						seeds = append(seeds, p)
 					}
 				}
